@@ -135,6 +135,17 @@ def gen_cfg(rng):
     }
 
 
+def gen_cfg_wide(rng):
+    """maximum-coverage configuration: all three plants; on the line the items really reach the end (open gate, a belt
+    with room, mostly passing inspection) and meet a batcher whose partial-batch timeout is SHORTER than the time the
+    items spent upstream (queueing / transit / service), next to shift boundaries on lossy instants"""
+    cfg = gen_cfg(rng)
+    cfg.update({"layout": "all", "gate_open0": True, "gate_qcap": 10, "belt_cap": rng.choice([0, 2]),
+                "broken_mode": rng.choice(["none", "capacity"]), "pass_rate": rng.choice([0.8, 0.95, 1.0]),
+                "batch": rng.choice([2, 4, 7]), "batch_to_ms": dur_ms(rng, 2, 60), "l_rate": rng.choice([20, 40])})
+    return cfg
+
+
 def build(cfg, seed):
     from happysimulator.components.common import Counter, Sink
     from happysimulator.components.industrial import (
